@@ -15,7 +15,7 @@ pub trait Component {
 fn main() {
     let args: Vec<String> = std::env::args().collect();
     if args.len() != 2 {
-        eprintln!("usage: vh-core <component>; components: {}", comp::NAMES.join(" "));
+        eprintln!("usage: vh-core <component>; components: {}", comp::names().join(" "));
         std::process::exit(2);
     }
     let name = args[1].clone();
